@@ -33,8 +33,14 @@ def run(prog, rep, tier='quick'):
     n_v = 0
     X = lambda: C.data(True, phase=False)
     nf = lambda: C.nfft('even')
+    def npint(v_):
+        c_ = Const(v_)
+        c_.npint = True          # a numpy integer scalar: what argmin() + 1 or mask.sum() hands over
+        return c_
     CASES = [
         ({'NSIG': Const(3), 'threshold': C.deg0()}, 8, False, 'NSIG and threshold together'),
+        ({'NSIG': Const(0), 'threshold': C.deg0()}, 8, False, 'NSIG = 0 and threshold together'),
+        ({'NSIG': npint(0), 'threshold': C.deg0()}, 8, False, 'NSIG = 0 (numpy integer) and threshold together'),
         ({'NSIG': Const(-1)}, 8, False, 'NSIG < 0'),
         ({'NSIG': Const(8)}, 8, False, 'NSIG == P'),
         ({'NSIG': Const(9)}, 8, False, 'NSIG > P'),
@@ -45,10 +51,6 @@ def run(prog, rep, tier='quick'):
         ({'threshold': C.deg0()}, 8, True, 'threshold only'),
         ({}, 8, True, 'neither'),
     ]
-    def npint(v_):
-        c_ = Const(v_)
-        c_.npint = True          # a numpy integer scalar: what argmin() + 1 or mask.sum() hands over
-        return c_
     CASES += [
         ({'NSIG': npint(-1)}, 8, False, 'NSIG < 0 (numpy integer)'),
         ({'NSIG': npint(8)}, 8, False, 'NSIG == P (numpy integer)'),
